@@ -737,6 +737,7 @@ package dsl
 //@   requires errorSink != nil && functionCall != nil && visitor != nil
 //@   ensures wrong_arity_is_an_error: typeof(result) == *FunctionCallExpression && result.(*FunctionCallExpression) != nil && (len(result.(*FunctionCallExpression).Arguments) == 0 || len(result.(*FunctionCallExpression).Arguments) > 2) ==> called("validation.(*ErrorSink).Add")
 //@   ensures the_result_is_a_size: (typeof(result) == *FunctionCallExpression && result.(*FunctionCallExpression) != nil ==> result.(*FunctionCallExpression).ResolvedType == SizeType) && (typeof(result) == *IntegerLiteralExpression && result.(*IntegerLiteralExpression) != nil ==> result.(*IntegerLiteralExpression).ResolvedType == SizeType)
+//@   ensures a_literal_dimension_name_of_an_open_dimension_becomes_its_position_in_the_array: typeof(result) == *FunctionCallExpression && typeof(target.Dimensionality) == *Array && stringLit != nil && called("math/big.NewInt") ==> 0 <= lastArg("math/big.NewInt", 0) && lastArg("math/big.NewInt", 0) < len(*target.Dimensionality.(*Array).Dimensions) && (*target.Dimensionality.(*Array).Dimensions)[lastArg("math/big.NewInt", 0)].Name != nil && *(*target.Dimensionality.(*Array).Dimensions)[lastArg("math/big.NewInt", 0)].Name == stringLit.Value
 
 // ---- C09 / C04: visitor callbacks must keep descending, otherwise a construct nested deeper is never looked at --
 // Cycle detection / dependency sort: a type reference always descends into its type arguments (a cycle can close
